@@ -250,12 +250,6 @@ pub fn run(sc: &Scenario, opts: &RunOptions) -> RunRecord {
         if sc.script.len() > 64 && sc.script.iter().filter(|s| s.wait).count() * 40 < sc.script.len() {
             fired.burst += 1;
         }
-        if let Some(at) = eof_at {
-            fired.eof += 1;
-            if at != 0 && !frame_ends.contains(&at) {
-                fired.eof_mid_frame += 1;
-            }
-        }
     }
     let mut delays: Vec<(usize, u64)> = vec![];
     let mut stalls: Vec<(usize, u64)> = vec![];
@@ -471,11 +465,18 @@ pub fn run(sc: &Scenario, opts: &RunOptions) -> RunRecord {
                         fired.delay += 1;
                     }
                 } else {
+                    // counted when it happens, not when it is configured
                     if read_error {
                         sim.stdin_fail();
                         fired.read_error += 1;
                     } else {
                         sim.stdin_close();
+                        if let Some(at) = eof_at {
+                            fired.eof += 1;
+                            if at != 0 && !frame_ends.contains(&at) {
+                                fired.eof_mid_frame += 1;
+                            }
+                        }
                     }
                     stdin_closed = true;
                 }
